@@ -50,14 +50,24 @@ func NewParser(out, err io.Writer, opts CLIParserOptions) *Parser {
 
 // Parse parses the given SQL input (file or direct SQL)
 func (p *Parser) Parse(input string) (*ParserResult, error) {
-	result := &ParserResult{}
-
 	// Use robust input detection with security checks
 	inputResult, err := DetectAndReadInput(input)
 	if err != nil {
+		result := &ParserResult{}
 		result.Error = fmt.Errorf("input processing failed: %w", err)
 		return result, result.Error
 	}
+	return p.parseContent(inputResult)
+}
+
+// ParseSQL parses text that is known to be SQL (read from stdin): it is never taken for a file path.
+func (p *Parser) ParseSQL(content []byte) (*ParserResult, error) {
+	return p.parseContent(&InputResult{Type: InputTypeSQL, Content: content, Source: "stdin"})
+}
+
+func (p *Parser) parseContent(inputResult *InputResult) (*ParserResult, error) {
+	result := &ParserResult{}
+	var err error
 
 	// Use pooled tokenizer
 	tkz := tokenizer.GetTokenizer()
